@@ -73,6 +73,36 @@ def majorityLogical (n : Nat) (A : Img Int) : Array (Option Bool) :=
   | [rows, cols] => majorityLoops rows cols n fun y x => A.getD [(y : Int), (x : Int)] 0 != 0
   | _ => Array.replicate (shapeSize A.shape) none
 
+/-! ### `filter_iterator::iterate_both(iterator)` reading the position from the ARRAY iterator
+
+`Model/FilterIter.lean` keeps its own odometer (`State.posRev`) next to the table pointer. The C++ has no such copy:
+`iterate_both` reads `iterator.index_rev(d)` and `iterator.dimension_rev(d)` of the array iterator it is handed, moves
+`cur_offsets_idx_`, and then does `++iterator`. This is that loop, on the transliterated `Iter` of `Model/C08Base.lean`. -/
+
+/-- the pair (array iterator, `cur_offsets_idx_ − offsets_.begin()`) a kernel loop carries -/
+structure BothState where
+  it : Iter
+  cur : Int
+deriving Repr
+
+/-- `fiter.iterate_both(iter)`: `p = iterator.index_rev(d)` is `it.pos[d]`, `iterator.dimension_rev(d)` is `it.dims[d]`
+(both stored reversed by `iterator_base`); then `++iterator` -/
+def iterateBothV (fi : FilterIter.FIter) (s : BothState) : BothState :=
+  { cur := FilterIter.iterateBoth fi.its (s.it.pos.map Int.ofNat) s.it.dims s.cur
+    it := s.it.incr }
+
+/-- `iter = array.begin(); filter_iterator fiter(…);` then `n` times `fiter.iterate_both(iter)` -/
+def bothAfter (fi : FilterIter.FIter) (v : View) : Nat → BothState
+  | 0 => { it := Iter.begin v, cur := 0 }
+  | n + 1 => iterateBothV fi (bothAfter fi v n)
+
+/-- `retrieve(iterator, j, val)` through the joint loop state: `*(&*iterator + cur_offsets_idx_[j])` -/
+def retrieveBoth {α : Type} (fv : FiltV α) (mem : Int → α) (v : View) (i j : Nat) : Option α :=
+  let s := bothAfter fv.fi v i
+  match fv.fi.offsets[(s.cur + (j : Int)).toNat]? with
+  | some (some off) => some (mem (s.it.data + FilterIter.elemOffset fv.astrides off))
+  | _ => none
+
 /-! ### driver: `c08 kind=kviewA kernel=… amem= abase= ashape= astrides= bmem= bbase= bshape= bstrides= n= min=` -/
 
 def handleViewsA (a : Args) : String :=
